@@ -115,3 +115,11 @@ reg("C32", "model_checking", "TLA+ spec DevMgmt model-checked with TLC; trace va
     "counters, acknowledgements, frames passed up, indication callbacks, results with the value returned and its time) must be a behaviour of the spec.",
     "Trusted: TLC, the virtual-time loop, the scripted server (numbers its frames correctly; every answer carries a distinct value so the result identifies the answer used).",
     "DESIGN.md section 5 C32")
+
+reg("C35", "model_checking", "TLA+ specs StateUpd (policy monitor) and StateUpdModel (tracker tasks, model-checked with its deviation refuted); trace validation of the real StateUpdater under virtual time",
+    "StateUpdModel (tracker tasks, shielded reads, read slots) is model-checked for three trackers (at most two reads in progress, none while disconnected, "
+    "init trackers once per connection) and its deviation (slot freed on cancellation) must give a counterexample; the real StateUpdater runs random histories "
+    "of connection loss and return with gaps from 50 ms to minutes, state telegrams, registrations and removals, answered and unanswered reads, and every trace "
+    "(reads issued and finished, updates, connection changes with times) must satisfy StateUpd: a read only when its policy permits and whenever it is due.",
+    "Trusted: TLC, the virtual-time loop, the mocked interface. Readings: see the assumptions in the evidence (first read of an expire value, 15 s slack for due reads).",
+    "DESIGN.md section 5 C35")
